@@ -215,7 +215,7 @@ func ParseURI(raw string) (*URI, error) { //nolint:gocognit,cyclop
 
 func parseProto(raw string) (ProtoType, error) {
 	qArgs, err := url.ParseQuery(raw)
-	if err != nil || len(qArgs) > 1 {
+	if err != nil || len(qArgs) > 1 || len(qArgs["transport"]) > 1 {
 		return ProtoTypeUnknown, ErrInvalidQuery
 	}
 
